@@ -10,7 +10,7 @@ from ..core import AnalysisError, Ctx
 from .c20 import check_option_plumbing
 
 META = {
-    "explanation": "(O1) every one of the seven options flows by name from dumps/dump/save through _pprint into the PrettyPrinter field the methods read (positional calls resolved against the callee's signature, constructor evaluated with symbolic options). (O2) options are confined to layout: _format is evaluated on representative dictionaries under the baseline options and under each other option setting (symbolic indent / spacer / newlinechar, indent 0, end_comment, align_values with several indents, the other quote character); after removing leading indentation, the ' # TYPE' END suffix and inter-token padding, every line must be identical to the baseline line - so the token sequence read back is the same - and key and value are always separated by at least one space. (O3) separate_complex_types is evaluated on an ordered dictionary: it is a stable partition (simple keys first, block-valued keys after, both groups in their original relative order) and a no-op when the option is off.",
+    "explanation": "(O1) every one of the seven options flows by name from dumps/dump/save through _pprint into the PrettyPrinter field the methods read (positional calls resolved against the callee's signature, constructor evaluated with symbolic options). (O2) options are confined to layout: _format is evaluated on representative dictionaries under the baseline options and under each other option setting (symbolic indent / spacer / newlinechar, indent 0, end_comment, align_values with several indents, the other quote character); after removing leading indentation, the ' # TYPE' END suffix and inter-token padding, every line must be identical to the baseline line - so the token sequence read back is the same - and key and value are always separated by at least one space. (O3) separate_complex_types, read off the text pprint() writes for a representative LAYER (evaluated): a stable partition of every block's keys (plain keywords first, block-valued keys after, both groups in their original relative order), the pairs inside METADATA / VALIDATION blocks - also those whose key is a block keyword - and the SYMBOL keyword of a nested or root STYLE stay where they are, and nothing moves when the option is off.",
     "level_text": "Options x categories of lines is a finite product once level/indent/spacer are symbolic; showing that every option-derived piece of every line template is pure layout proves that the formatted text lexes to the same tokens under all option combinations.",
     "level_note": "Trusted: that text differing only in separators between tokens parses identically (C05). newlinechar=' ' with comments is excluded by the property.",
     "technique": "by-name dataflow of options + abstract interpretation of the writers under varied option settings with line-content comparison",
